@@ -93,8 +93,29 @@ def run(ctx):
             top = frames[0].split("(")[0].split("/")[-1] if frames else "unknown"
             ctx.violation("race|%s" % top, "data race reported by the race detector in library code", {"report": stderr[:6000]})
         ctx.log("race n=%d %s GOMAXPROCS=%d: wall %.1fs, races=%d" % (n, kind, gmp, rep["wall_s"], races))
-    ctx.cov["traces_validated_against_impl"] = len(runs)
-    ctx.cov["evaluations"] = nev
+    # device-side pipeline: the library's chunking goroutines (producer, chunker, transport side) under buffered
+    # and unbuffered pipes, GOMAXPROCS 2 and 16 and permuted producer/consumer delays; every recorded run must be
+    # a behaviour of Chunk.tla (a lost wake-up or a lost tail shows as a read that ends early), no hang, no crash
+    import collections
+    from checks import c15
+    swd = ctx.sub("pipe")
+    spath, ppath = os.path.join(swd, "trace.ndjson"), os.path.join(swd, "params.json")
+    args = ["chunk-sweep", "-out", spath, "-params", ppath, "-seed", ctx.seed + 19, "-procs", "2,16" if quick else "1,2,4,16"]
+    args += ["-limit", 3000] if quick else ["-thorough", "-limit", 30000]
+    ctx.run_vh(args, timeout=3000)
+    sruns = c15.split_runs(read_ndjson(spath))
+    with open(ppath) as f:
+        sparams = {p["id"]: p for p in json.load(f)}
+    if len(sruns) != len(sparams) and sum(1 for r in sruns for e in r if e["ev"] == "hang") < 6:
+        raise Inconclusive("pipeline sweep recorded %d of %d runs" % (len(sruns), len(sparams)))
+    pstats = collections.Counter()
+    rej = c15.validate_runs(ctx, sruns, "c19sw", per_slice=8000 if quick else 40000, workers=8 if quick else 12)
+    c15.report(ctx, rej, sparams, "device pipeline sweep", pstats)
+    pstats.pop("window", None)
+    ctx.notes["pipeline_runs"] = len(sruns)
+    ctx.notes["pipeline_rejected_by_key"] = dict(pstats)
+    ctx.cov["traces_validated_against_impl"] = len(runs) + len(sruns)
+    ctx.cov["evaluations"] = nev + sum(1 for r in sruns for e in r if e["ev"] == "read")
     ctx.cov["distinct_nontrivial"] = ndev
     ctx.cov["rule"] = "one evaluation = one HTTP exchange of a concurrent run validated against Server_Trace.tla; distinct = device chains run concurrently (recorded and race-detector runs)"
     ctx.notes["race_reports"] = races
